@@ -78,7 +78,9 @@ def widened_c03() -> list[JobSpec]:
 def wide_configs(quick: bool) -> list[Config]:
     """Fan-outs wider than the producing host, with blockers that keep the other host busy, so that consumers of one
     dataset are scheduled in different rounds on sibling workers and on remote hosts (batch bound 1: these are large)."""
-    specs = [simple_job("fan3+join/sinks", 7, [(0, 1), (0, 2), (0, 3), (4, 6), (5, 6)], "sinks")]
+    specs = [simple_job("fan3+join/sinks", 7, [(0, 1), (0, 2), (0, 3), (4, 6), (5, 6)], "sinks"),
+             # more consumers than the whole cluster has workers: two sibling workers of the remote host both get one
+             simple_job("fan4/sinks", 5, [(0, 1), (0, 2), (0, 3), (0, 4)], "sinks")]
     if not quick:
         specs += [
             simple_job("fan3+2iso/sinks", 6, [(0, 1), (0, 2), (0, 3)], "sinks"),
